@@ -1,6 +1,6 @@
 (** C10 — Backward tracking = forward tracking in the time-mirrored, sign-flipped flow. *)
 From Coq Require Import ZArith QArith List Bool.
-From Ladim Require Import Base.Num Model.Time Model.Sim Proofs.TimeProofs Proofs.SimProofs Proofs.SymmetryProofs Model.Release Proofs.MirrorReleaseProofs.
+From Ladim Require Import Base.Num Model.Time Model.Sim Proofs.TimeProofs Proofs.SimProofs Proofs.SymmetryProofs Model.Release Proofs.MirrorReleaseProofs Model.ForcingTime Proofs.MirrorForcingProofs.
 Import ListNotations.
 Open Scope Z_scope.
 
@@ -30,6 +30,14 @@ Print Assumptions C10_mirror_window.
 Theorem C10_lerp_sign_flip : forall a fa b fb x, (~ b - a == 0 -> lerp a (- fa) b (- fb) x == - lerp a fa b fb x)%Q.
 Proof. exact lerp_neg. Qed.
 Print Assumptions C10_lerp_sign_flip.
+
+(** T3 at the level of C03's specification: whatever the frame layout, interpolating the sign-flipped frames
+    gives the sign-flipped field at every (fractional) time — with C03 (the machine's velocity is the
+    interpolation, sign-flipped under reversal) the reversed run and the mirrored forward run feel the same velocity *)
+Theorem C10_forcing_sign_flip : forall pts x,
+  opt_rel (fun v w => (w == - v)%Q) (lerp_spec pts x) (lerp_spec (neg_pts pts) x).
+Proof. exact lerp_spec_neg. Qed.
+Print Assumptions C10_forcing_sign_flip.
 
 (** T2 for the releaser (discrete release, cold or warm start): with every release time mirrored, the
     forward set-up over the mirrored axis is refused iff the reversed one is, keeps the (mirrored) rows in
